@@ -112,6 +112,7 @@ inline void stop_worker() {
 
 inline void start_worker(double timeout_s) {
     Worker& w = worker();
+    errfile();  // fix the path in the parent (it contains the parent's pid)
     int a[2], b[2];
     if (pipe(a) != 0 || pipe(b) != 0) {
         perror("pipe");
